@@ -954,6 +954,12 @@ func propTable() map[string]*PropSpec {
 			c.RequireReach = []string{"C14.sync_during_commit"}
 			q = append(q, c)
 		}
+		// election triggers keep arriving while the worker (busy in an SPI call) takes nothing; then syncs
+		for _, ne := range []int{1, 2} {
+			c := rc(fmt.Sprintf("C14_MainLoop/syncs=1/prefilled=1/elections=%d", ne), ".", "C14_MainLoop", map[string]int{"syncs": 1, "prefilled": 1, "elections": ne})
+			c.RequireReach = []string{"C14.mainloop.done"}
+			q = append(q, c)
+		}
 		sdp := rc("C14_SyncDuringProposal", ".", "C14_SyncDuringProposal", nil)
 		sdp.RequireReach = []string{"C14.sync_during_proposal"}
 		q = append(q, sdp)
